@@ -249,6 +249,9 @@ def expected_slots(name, texts):
     raise KeyError(name)
 
 
+SAME_VNODE = [False]      # set while the window's lookups all carry ONE vnode id (paths under one directory vnode / a retried lookup)
+
+
 def judge_enclosed(name, texts, gaps, same_tick=False):
     """texts: list of looked-up texts; gaps: dict position -> unrelated kind inserted before lookup i (or after last)."""
     s, e = D.in_domain(name, 'se', (0x1111, 0x2222, 0x3333, 0x4444), (0, 0x55, 0x66, 0x77), 1)
@@ -257,7 +260,7 @@ def judge_enclosed(name, texts, gaps, same_tick=False):
         if i in gaps:
             evs.append(unrelated(gaps[i]))
         # key 100+i: the unrelated record sits BETWEEN the records of lookup i
-        evs += with_gaps(lookup_events(VN + i, t), gaps.get(100 + i))
+        evs += with_gaps(lookup_events(VN if SAME_VNODE[0] else VN + i, t), gaps.get(100 + i))
     if len(texts) in gaps:
         evs.append(unrelated(gaps[len(texts)]))
     evs.append(E.ev(name, 2, e))
@@ -267,7 +270,7 @@ def judge_enclosed(name, texts, gaps, same_tick=False):
     lks = [t for t in out if type(t).__name__ == 'VfsLookup']
     if len(mine) != 1:
         return [('enclosing-trace-count', {'n': len(mine)})]
-    if [t.path for t in lks] != list(texts) or [t.vnode_id for t in lks] != [VN + i for i in range(len(texts))]:
+    if [t.path for t in lks] != list(texts) or [t.vnode_id for t in lks] != [VN if SAME_VNODE[0] else VN + i for i in range(len(texts))]:
         bad.append(('lookup-traces-differ-from-lookups', {'got': [t.path for t in lks][:4], 'exp_n': len(texts)}))
     got = QUOTED.findall(str(mine[0]))
     exp = expected_slots(name, list(texts))
@@ -353,6 +356,14 @@ class C08(Check):
                                 self._enc(acc, name, same, {})
                                 self._enc(acc, name, same, {}, same_tick=True)
                             self._enc(acc, name, texts, {}, same_tick=True)
+                            # ... and with ONE vnode id on all lookups of the window (equal neighbours included)
+                            SAME_VNODE[0] = True
+                            try:
+                                self._enc(acc, name, texts, {})
+                                for pat in (0, 3):
+                                    self._enc(acc, name, [text(L, pat)] * k, {})
+                            finally:
+                                SAME_VNODE[0] = False
                         if li in (4, 6, 8):
                             for pos in range(k):
                                 for kind in ('K', 'W', 'T', 'D', 'X', 'S', 'pair'):
@@ -367,8 +378,8 @@ class C08(Check):
         acc.case(nontrivial=any(len(t.encode()) > 24 for t in texts), transitions=nrec + 2 + len(gaps),
                  state=h64((name, nrec)), outcome=h64((name, len(texts), not bad)))
         for sig, detail in bad:
-            acc.violation(sig + (':all-records-on-one-tick' if same_tick else ''), {'kind': 'enclosed', 'decoder': name, 'texts': texts, 'gaps': {str(k): v for k, v in gaps.items()},
-                                'same_tick': same_tick}, detail)
+            acc.violation(sig + (':all-records-on-one-tick' if same_tick else '') + (':one-vnode-id' if SAME_VNODE[0] else ''),
+                          {'kind': 'enclosed', 'decoder': name, 'texts': texts, 'gaps': {str(k): v for k, v in gaps.items()}, 'same_tick': same_tick, 'same_vnode': SAME_VNODE[0]}, detail)
 
     def replay(self, case):
         if case['kind'] == 'headless':
@@ -377,8 +388,12 @@ class C08(Check):
             return judge_listing(case['what'], case['len'], case['pattern'])
         if case['kind'] == 'standalone':
             return judge_standalone(case['what'], case['len'], case['pattern'], case.get('gap'))
-        bad = judge_enclosed(case['decoder'], case['texts'], {int(k): v for k, v in case['gaps'].items()}, case.get('same_tick', False))
-        return [(sig + (':all-records-on-one-tick' if case.get('same_tick') else ''), d) for sig, d in bad]
+        SAME_VNODE[0] = bool(case.get('same_vnode'))
+        try:
+            bad = judge_enclosed(case['decoder'], case['texts'], {int(k): v for k, v in case['gaps'].items()}, case.get('same_tick', False))
+        finally:
+            SAME_VNODE[0] = False
+        return [(sig + (':all-records-on-one-tick' if case.get('same_tick') else '') + (':one-vnode-id' if case.get('same_vnode') else ''), d) for sig, d in bad]
 
 
 if __name__ == '__main__':
